@@ -2,6 +2,7 @@
 from hypothesis import strategies as st
 
 from pbt import build, gens, oracles as O
+from pbt.common import build_input
 from pbt.runner import Outcome
 
 ID = "C18"
@@ -62,12 +63,12 @@ def _read_views(out, seq):
 
 def check(case):
     out = Outcome()
-    seq = build.sequence(case["seq"])
     op = case["op"]
     out.label(op)
-    ev0, d0 = O.seq_events(seq)
-    notes0, an0 = O.notes(ev0)
-    assert not an0, an0
+    built = build_input(out, case["seq"])
+    if built is None:
+        return out
+    seq, ev0, d0, notes0 = built
     try:
         if op == "pad":
             seq.pad(case["n"])
